@@ -47,7 +47,7 @@ def gval_param(r: random.Random, hostile=1.0, allow_pos=True):
     if allow_pos:
         name = r.choice(["m", "Mark 1", "", "ü"]) if r.random() > 0.1 * hostile else r.choice(["it's", 'q"', "a\\b", "n\nl"])
         return ("pos", name, r.choice([0, 2, 4]),
-                r.choice([0, 2]), r.choice([0, 1, 20, 255, -3]), r.choice([0, 5, 47, -1]))
+                r.choice([0, 2]), r.choice([0, 1, 20, 255, -3, -1, -1]), r.choice([0, 5, 47, -1]))
     return ("int", r.randint(0, 9))
 
 
